@@ -5,3 +5,30 @@ From CiwV Require Import Sx Acc.C05.
 Theorem C05_sound : forall tr st, C05.acc tr = Accept st -> C05.P_C05 tr.
 Proof. exact C05.C05_sound. Qed.
 Print Assumptions C05_sound.
+
+(* ---- T2: the engine model (coq/Engine, tied to /repo by the stepwise correspondence check K2) never idles a server while a customer waits ---- *)
+From Coq Require Import ZArith List.
+From CiwV Require Import Prelude.
+From CiwV.Engine Require Import State Engine Codec.
+From CiwV.Inv Require Import Frame Conserve Servers NonIdle.
+Open Scope Z_scope.
+
+(* one executed event, for every configuration, every state satisfying the invariant and every oracle of draws *)
+Theorem event_step_ni : forall cf s s', NonIdle.NIInv cf s -> Engine.event_step cf s = Ok (tt, s') -> NonIdle.NIInv cf s'.
+Proof. exact NonIdle.event_step_ni. Qed.
+Print Assumptions event_step_ni.
+
+(* any number of events, in the words of the property: at a node with c servers, whenever some customer of the node has no server
+   every server of the node is busy; in numbers, the busy servers are min(c, customers at the node) *)
+Theorem engine_nonidle : forall cf ds s s', NonIdle.NIInv cf s -> Codec.run_many cf s ds = Ok s' ->
+  forall k nd nc c, nth_error (nodes s') k = Some nd -> nth_error (cf_nodes cf) k = Some nc -> nc_c nc = Some c ->
+    ((exists i x, In i (Engine.all_individuals nd) /\ Engine.find_ind i (inds s') = Some x /\ i_server x = None) ->
+       forall sv, In sv (n_servers nd) -> sv_busy sv = true) /\
+    zlen (filter sv_busy (n_servers nd)) = Z.min c (n_pop nd).
+Proof. exact NonIdle.engine_nonidle. Qed.
+Print Assumptions engine_nonidle.
+
+(* the executable test used by the correspondence check on the real engine's snapshots is sound for the invariant *)
+Theorem ni_b_sound : forall cf s, NonIdle.ni_b cf s = true -> NonIdle.NIInv cf s.
+Proof. exact NonIdle.ni_b_sound. Qed.
+Print Assumptions ni_b_sound.
